@@ -1795,7 +1795,7 @@ def _lk_assembly_index(cx, inst, b, alen):
     R = cx.R
     hd = R.body("PacketReceiver::handle_datagram")
     aw = R.body("PacketReceiver::advance_window")
-    okc = alen == "MAX_PACKET_WINDOW_SIZE"
+    okc = _strip_casts(alen or "") == "MAX_PACKET_WINDOW_SIZE"
     for ob, callee in ((hd, "AssemblyWindow::try_add"), (aw, "AssemblyWindow::clear")):
         for l, t in ob.calls(callee):
             a = show(ob.operand_expr(t["args"][1]))
@@ -1805,7 +1805,7 @@ def _lk_assembly_index(cx, inst, b, alen):
 
 
 def _lk_ack_flags(cx, inst, b, idx, alen, cf):
-    if idx != "cast<usize>(div(arg2,64))":
+    if idx != "div(cast<usize>(arg2),64)":
         return None, "ack_flags index shape"
     if not (alen or "").startswith("div(add(63,"):
         return None, "ack_flags length shape"
@@ -1817,6 +1817,8 @@ def run(cx):
     check_panics(cx)
     check_beliefs(cx)
     check_state_beliefs(cx)
+    from props.shared import window_pass_guard
+    window_pass_guard(cx, "C03.W")
     check_validators(cx)
     check_parser(cx)
     check_index_inventory(cx)
@@ -1831,6 +1833,10 @@ def run(cx):
     # and the first fragment copy indexes an empty buffer
     from props.C06 import inst_sibling_accounting
     inst_sibling_accounting(cx, "C03.A")
+    # PacketSender::acknowledge unwraps every slot in [base, next): a window that admits one packet too many overwrites
+    # the oldest slot, and the ack that passes it unwraps None
+    from props.C02 import inst_emit_guards
+    inst_emit_guards(cx, "C03.E")
 
 
 SELFTEST = [
